@@ -193,6 +193,22 @@ def gen_case(S, tier):
         else:
             op["grid"] = jump.gen_grid(rng, base["t0"], T)
         case = {"engine": "repro", "model": base["model"], "theta": base["theta"], "x0": base["x0"], "t0": base["t0"]}
+        if rng.random() < 0.3 and base["theta"]:
+            # random parameters re-drawn for every path of a stochastic simulation
+            ref_ = RefModel(base["model"])
+            spec = {}
+            for nm, th in zip(ref_.param_names, base["theta"]):
+                r = rng.random()
+                if r < 0.4:
+                    spec[nm] = th
+                elif r < 0.7:
+                    spec[nm] = ["frozen", "gamma", {"args": [80.0], "kw": {"scale": th / 80.0}}]
+                elif r < 0.85:
+                    spec[nm] = ["tuple", "rgamma", [80.0, 80.0 / th]]
+                else:
+                    spec[nm] = ["tuple", "runif", {"min": th * 0.95, "max": th * 1.05}]
+            if any(isinstance(v, list) for v in spec.values()):
+                case["param_spec"] = spec
     else:
         for _ in range(100):
             name, model, theta, x0, t0, tmax, box, pos = solver.pick_problem(rng, random_frac=0.0)
